@@ -546,6 +546,28 @@ class LuaHarness(object):
         return {"cls": cls + "/called", "sample": self.witness(e.model(), None), "extra": extra}
 
 
+def duplicate_entries(text):
+    """A name listed twice in one luaL_Reg table: luaL_setfuncs stores the entries in order, so the later one replaces the
+    earlier one and that binding (the overloads gathered under it) cannot be reached from Lua."""
+    for m in re.finditer(r"(?s)static const (?:struct )?luaL_Reg (\w+)\s*\[\]\s*=\s*\{(.*?)\};", text):
+        names = [n for n, f in re.findall(r'\{\s*"(\w+)",\s*(\w+)\s*\}', m.group(2))]
+        for n in names:
+            if names.count(n) > 1:
+                return "the name %r is registered %d times in %s: only the last entry can be reached from Lua" % (n, names.count(n), m.group(1))
+    return None
+
+
+def generated_lua_text():
+    """The Lua module as the generator writes it (no compilation)."""
+    from gen import pipeline
+    res = pipeline.run(pipeline.load_yaml(lc.lib_text(BUILD[0])))
+    for name, pieces in res.files.items():
+        b = os.path.basename(name)
+        if b.startswith("lua") and b.endswith((".cpp", ".c")):
+            return "".join(pieces)
+    return ""
+
+
 def registration_verdict(build):
     """Every binding is reachable from Lua under the name the declaration gives it: a free function and a constructor in the
     module table (the C++ name / the class name), a method in its class's table under the C++ name, the destructor as __gc."""
@@ -621,6 +643,8 @@ def make(**kw):
 def confirm(w):
     """Re-execute the harness pinned to the witness stack (the Lua runtime is not installed, so there
     is no native Lua to replay against); returns the violation text if it shows again."""
+    if w.get("kernel") == "registration-text":
+        return duplicate_entries(generated_lua_text())
     if w.get("kernel") == "registration":
         return registration_verdict(lc.get_build(BUILD))
     if w.get("kernel") == "metatables":
@@ -656,6 +680,16 @@ def main():
     try:
         b = lc.get_build(BUILD)
     except Exception as ex:
+        # the module does not compile (C05's domain) - but a name registered twice is a C18 violation that can be read from
+        # the generated text alone
+        dup = None
+        try:
+            dup = duplicate_entries(generated_lua_text())
+        except Exception:
+            pass
+        if dup:
+            path = checklib.write_replay(PID, "registration", {"kernel": "registration-text", "what": dup})
+            rep.violation(path, dup + " (read from the generated text; the module does not compile)")
         rep.inconc("cannot build the Lua module: %s" % str(ex)[:400])
         checklib.write_evidence(PID, tier, seed, "translation_validation", {"evaluations": 1, "distinct_nontrivial": 0, "samples": []}, [], rep.wall(), 0)
         return rep.finish()
@@ -677,7 +711,7 @@ def main():
     twin_ok = tw.stats.paths > 0 and tw.nviol > 0 and not tw.inconclusive
     if not twin_ok:
         rep.inconc("reachability twin failed: %r" % (tw.inconclusive[:1],))
-    reg_fail = registration_verdict(b)
+    reg_fail = duplicate_entries([t for n, t in b.files.items() if n.startswith("lua") and n.endswith((".cpp", ".c"))][0]) or registration_verdict(b)
     if reg_fail:
         path = checklib.write_replay(PID, "registration", {"kernel": "registration", "what": reg_fail})
         rep.violation(path, reg_fail)
